@@ -74,3 +74,15 @@ def register(claim, na):
         "symbolic execution of the decomposition on sympy symbols + z3 QF_NRA on rank-one (proportionality) minors",
         "DESIGN.md §1 E1, §2 C18",
     )
+    claim(
+        "C16", "model_checking",
+        "Symbolic model checking of the evolution builders with a symbolic time t: for all 63 Pauli strings on <= 3 qubits and dyadic "
+        "coefficients the term circuit's matrix is compared with cos(tc)I - i sin(tc)P; for Hamiltonians of <= 3 terms and 1..3 steps the "
+        "circuit is compared with the ordered product of per-term evolutions for time/steps; for derivatives the factor-weighted sum of "
+        "conj(U_k[i,a])U_k[j,b] is compared with d/dt(conj(U[i,a])U[j,b]) for every index quadruple (all observables and states at once). "
+        "Each entry identity is decided for every real t by z3 over the circle (cvc5 / exact Fourier certificate when z3 gives up, counted apart).",
+        "Trusted: sympy (incl. differentiation of the evolution matrix), translator (Fourier cross-check + replay), z3. H and RX(pi/2) constants "
+        "are doubles (tolerance 1e-9); dyadic coefficients; the imaginary-part guard and constant-term clauses are ground instances.",
+        "symbolic execution of evolution.py with a symbolic time + z3 QF_NRA over the circle; Fourier-form differentiation for the derivative clause",
+        "DESIGN.md §1 E1, §2 C16",
+    )
